@@ -147,6 +147,63 @@ def run(ctx):
                 ctx.counterexample('NODOTDIR: %r matches %r although the `.`/`..` segment is not written literally' % (pat, name),
                                    {'name': name, 'pattern': pat, 'flags': 'NODOTDIR|DOTGLOB|EXTGLOB'})
     ctx.counted('exclusion-as-DOTGLOB and NODOTDIR probes', n, n // 2, [{'name': '.x', 'exclude': '*'}])
+
+    # ---- real trees: patterns without a written leading dot never return (or walk through) a hidden entry --------------
+    import trees
+    from wcmatch import wcmatch as WM
+    from props import globcommon
+    HID_TREES = [trees.DESIGNED[0], trees.DESIGNED[2],
+                 [('real', 'd', None), ('real/x.txt', 'f', None), ('real/.l', 'l', '.'), ('.hl', 'l', 'real'), ('real/sub', 'd', None),
+                  ('real/sub/.hidden.txt', 'f', None), ('real/sub/.hd', 'd', None), ('real/sub/.hd/y.txt', 'f', None), ('.top.txt', 'f', None)]]
+    nodot_pats = [('**', 0), ('**/*', 0), ('*', 0), ('*/*', 0), ('**/*.txt', 0), ('*.txt', Gm.MATCHBASE), ('**/', 0), ('*/**/', 0), ('[!a]*', 0),
+                  ('**/[!a]*', 0), ('?*', 0), ('**/?*.txt', 0), ('***/*.txt', Gm.GLOBSTARLONG), ('***', Gm.GLOBSTARLONG), ('x.txt', Gm.MATCHBASE),
+                  ('**/sub/*', 0), ('*/sub/**', 0), ('@(real|*)/**', Gm.EXTGLOB), ('**/*(?)', Gm.EXTGLOB)]
+    nt_ = 0
+    n_t = 0
+    for t in range(len(HID_TREES) + (3 if ctx.quick else 30)):
+        spec = HID_TREES[t] if t < len(HID_TREES) else trees.random_spec(rng, size=rng.randint(6, 14), cycles=False)
+        with trees.Tree(spec) as T:
+            cyc = globcommon.has_dir_cycle(T.root)
+            for pat, extra in nodot_pats:
+                for fl_ in (0, Gm.FOLLOW, Gm.MARK, Gm.FOLLOW | Gm.MATCHBASE, Gm.SCANDOTDIR):
+                    fv = Gm.GLOBSTAR | extra | fl_
+                    if cyc and (fv & (Gm.FOLLOW | Gm.GLOBSTARLONG)):
+                        continue
+                    if pat.startswith(('@(', '**/*(')) and True:
+                        known_site = True      # a segment that starts with a group: C03-group-then-wild
+                    else:
+                        known_site = False
+                    n_t += 1
+                    try:
+                        got = globcommon.with_alarm(10, lambda: Gm.glob(pat, flags=fv, root_dir=T.root))
+                    except globcommon.Alarm:
+                        continue
+                    bad = [x for x in got if any(sg.startswith('.') for sg in x.rstrip('/').split('/'))]
+                    if got:
+                        nt_ += 1
+                    if bad and not known_site:
+                        ctx.counterexample('glob(%r, %s) on a real tree returns %r: a hidden entry matched (or walked through) by a wildcard' % (
+                            pat, corr.flag_names(fv), bad[:4]), {'pattern': pat, 'flags': corr.flag_names(fv), 'tree': spec, 'hidden_results': bad[:10]})
+            # pathlib rglob / glob and WcMatch without HIDDEN
+            for pat, pfl in (('*.txt', PL.GLOBSTAR), ('*.txt', PL.GLOBSTAR | PL.FOLLOW), ('*', PL.GLOBSTAR | PL.FOLLOW)):
+                if cyc and pfl & PL.FOLLOW:
+                    continue
+                n_t += 1
+                got = [str(x.relative_to(T.root)) for x in PL.Path(T.root).rglob(pat, flags=pfl)]
+                bad = [x for x in got if any(sg.startswith('.') for sg in x.split('/'))]
+                if bad:
+                    ctx.counterexample('Path.rglob(%r, %s) returns hidden entries %r' % (pat, corr.flag_names(pfl), bad[:4]),
+                                       {'pattern': pat, 'flags': corr.flag_names(pfl), 'tree': spec, 'hidden_results': bad[:10]})
+            for wfl in (WM.RECURSIVE, WM.RECURSIVE | WM.SYMLINKS):
+                if cyc and wfl & WM.SYMLINKS:
+                    continue
+                n_t += 1
+                got = [globcommon.os.path.relpath(x, T.root) for x in WM.WcMatch(T.root, '*', flags=wfl).match()]
+                bad = [x for x in got if any(sg.startswith('.') for sg in x.split('/'))]
+                if bad:
+                    ctx.counterexample('WcMatch(\'*\', %s) without HIDDEN returns %r' % ('RECURSIVE|SYMLINKS' if wfl & WM.SYMLINKS else 'RECURSIVE', bad[:4]),
+                                       {'tree': spec, 'hidden_results': bad[:10]})
+    ctx.counted('real trees: no hidden entry for patterns without a written dot', n_t, nt_, [{'pattern': '**/*.txt', 'flags': 'GLOBSTAR|FOLLOW'}])
     common.replay_witnesses(ctx, [
         ('C03-star-guard-inside-optional', "globmatch('.a', '*?a') is True (the dot guard of a segment-initial `*` sits inside its optional group)",
          lambda: Gm.globmatch('.a', '*?a', flags=Gm.FORCEUNIX) is True),
